@@ -104,6 +104,17 @@ pub fn de_all(t: &DTy, bytes: &[u8]) -> Result<DeRes, String> {
         (Err(a), Err(b)) if a == b => {}
         _ => return Err(format!("entry-mismatch from_bytes {:?} vs take_from_bytes {:?}", from, take)),
     }
+    // the owned string / byte-buffer hints must decode exactly like the borrowed ones
+    let owned: Result<DeRes, ()> = guard(|| {
+        crate::dval::OWNED_HINTS.with(|c| c.set(true));
+        let r = with_ty(t, || postcard::take_from_bytes::<DynVal>(bytes).map(|(v, r)| (v.0, r.to_vec())).map_err(|e| err_name(&e)));
+        crate::dval::OWNED_HINTS.with(|c| c.set(false));
+        r
+    });
+    crate::dval::OWNED_HINTS.with(|c| c.set(false));
+    if owned != Ok(take.clone()) {
+        return Err(format!("entry-mismatch deserialize_string/byte_buf {:?} vs deserialize_str/bytes {:?}", owned, take));
+    }
     // byte reader with ample scratch: same value, reader left exactly at the remainder
     let io = guard(|| {
         let mut scratch = vec![0u8; bytes.len() + 8];
